@@ -62,3 +62,26 @@ Print Assumptions c20_routing_parser_sound.
 Theorem c20_tokens_concat : forall s st cur, concat (scan st s cur) = rev cur ++ s.
 Proof. exact scan_concat. Qed.
 Print Assumptions c20_tokens_concat.
+
+(* ---- the lookup structure of the strict parser (internal/httprule/trie.go) ---- *)
+From GB Require Import Model.Trie Proofs.TrieProofs.
+
+(* whatever templates were added, in whatever order (duplicates and overlaps included), and whatever path is looked up:
+   a template the trie returns matches the path - its flattened segments match the path's components one by one (a literal
+   equals its component, `*` takes one, a final `**` takes the rest) and its verb, if any, is what follows the last
+   component.  By induction over the Adds with the node invariant "everything stored below a node has exactly the edges
+   that lead to it", and over the components for the lookup. *)
+Theorem c20_trie_sound : forall ts p i t,
+  forallb trie_template_ok ts = true ->
+  In i (find false (build ts) (c_slash :: p)) -> nth_error ts i = Some t ->
+  template_matches t (c_slash :: p) = true.
+Proof. exact trie_find_sound. Qed.
+Print Assumptions c20_trie_sound.
+
+(* the lookup before the repair (finding F30, met while proving the theorem above): after a LITERAL had matched the whole
+   last component it still tried the verbs stored at that node against the end of the path: with only "/x:v:v" added
+   (literal "x:v", verb "v") the path "/x:v" was answered with that template *)
+Theorem c20_trie_old_unsound : exists ts p i t,
+  forallb trie_template_ok ts = true /\ In i (find true (build ts) p) /\ nth_error ts i = Some t /\ template_matches t p = false.
+Proof. exact trie_old_unsound. Qed.
+Print Assumptions c20_trie_old_unsound.
